@@ -18,28 +18,125 @@ def bins_consts(ctx):
 
 def fallback_predicate(ctx, fmt="gff"):
     """(predicate(env{start,stop}) -> bool, [], names): whether bins.bins(start, stop, fmt, one=False) is the constant
-    whole-chromosome answer {1}.  Obtained from the abstract interpreter run on singleton intervals (exact there); the
+    whole-chromosome answer {1}.  Obtained by evaluating the source of bins.bins at the point; the
     callers evaluate it on the threshold points of the order predicates involved, which cut the plane into regions on
     which the answer is constant."""
-    from .binsai import BinsInterp, ASet, Unsup
+    from .absint import Interp, Unsupported
     f = ctx.proj.func("bins.bins")
     ctx.touch(f)
     if len(f.params) < 2:
         raise AnalysisError("bins.bins lost its (start, stop) parameters")
-    consts = bins_consts(ctx)
     cache = {}
+    it = Interp(ctx)
 
     def pred(env):
         key = (env["start"], env["stop"])
         if key not in cache:
-            bi = BinsInterp(ctx, f, consts)
+            args = {f.params[0]: key[0], f.params[1]: key[1], "fmt": fmt, "one": False}
             try:
-                rets = bi.run(fmt, False, (key[0], key[0]), (key[1], key[1]))
-            except Unsup as e:
-                raise AnalysisError("bins.bins outside the modelled subset: %s" % e)
-            if len(rets) != 1:
-                raise AnalysisError("bins.bins(%d, %d) has %d abstract results on singleton input" % (key[0], key[1], len(rets)))
-            v = rets[0].value
-            cache[key] = isinstance(v, ASet) and not v.ranges and v.consts == {1}
+                traces = it.run(f, args)
+            except Unsupported as e:
+                raise AnalysisError("bins.bins outside the analysable subset: %s" % e)
+            if len(traces) != 1 or traces[0].result[0] != "return":
+                raise AnalysisError("bins.bins(%d, %d) has %d results / raises on concrete input" % (key[0], key[1], len(traces)))
+            v = traces[0].result[1]
+            cache[key] = isinstance(v, (list, set, frozenset)) and set(v) == {1}
         return cache[key]
     return pred, [], (f.params[0], f.params[1])
+
+
+# ---------------------------------------------------------------------------------------------------------------------
+# The scheme of the statement (UCSC binning, 5 levels, 128 kb finest, 8-fold), written independently of the code.
+LEVELS, FINEST, STEP = 5, 17, 3
+MAXC = 2 ** (FINEST + STEP * (LEVELS - 1))
+
+
+def spec_offset(k):
+    return (8 ** (LEVELS - k) - 1) // 7
+
+
+def spec_bins(start, stop, fmt="gff", one=True):
+    coord = {"gff": 1, "bed": 0}[fmt]
+    if start < coord or stop < 0 or start >= MAXC or stop >= MAXC:
+        return 1 if one else {1}
+    out = {1}
+    for k in range(LEVELS):
+        sh = FINEST + STEP * k
+        a, b = (start - coord) >> sh, stop >> sh
+        if one and a == b:
+            return spec_offset(k) + a
+        out.update(range(spec_offset(k) + a, spec_offset(k) + b + 1))
+    return out
+
+
+def grid_points():
+    """Coordinates around every place where some level's bin changes (multiples of the level's size, with the 1-based and
+    0-based start conventions), the range limits, and a few interior points."""
+    pts = {-2, -1, 0, 1, 2, 5000, MAXC - 2, MAXC - 1, MAXC, MAXC + 1}
+    for k in range(LEVELS):
+        size = 1 << (FINEST + STEP * k)
+        last = MAXC // size - 1
+        for m in sorted({0, 1, 2, 7, 8, 9, last}):
+            if 0 <= m <= last + 1:
+                for d in (-1, 0, 1, 2):
+                    pts.add(m * size + d)
+        pts.add(size // 2 + 12345 % size)
+    return sorted(p for p in pts if -2 <= p <= MAXC + 1)
+
+
+def grid_pairs(tier="quick"):
+    pts = grid_points()
+    pairs = set()
+    for s in pts:
+        near = {s - 1, s, s + 1, s + 100}
+        for k in range(LEVELS):
+            size = 1 << (FINEST + STEP * k)
+            nxt = (max(s, 0) // size + 1) * size
+            near |= {nxt - 1, nxt, nxt + 1, s + size - 1, s + size}
+        for e in near:
+            if -2 <= e <= MAXC + 1:
+                pairs.add((s, e))
+        if tier == "thorough":
+            for e in pts:
+                pairs.add((s, e))
+    return sorted(pairs)
+
+
+def bins_on_grid(ctx, tier="quick", only=None):
+    """bins.bins evaluated (own evaluator on the source) on the threshold grid: [(fmt, one, start, stop, value)] where value
+    is an int, a frozenset of ints, or ('raise', name)."""
+    from .absint import Interp, Unsupported
+    f = ctx.proj.func("bins.bins")
+    ctx.touch(f)
+    if len(f.params) < 2:
+        raise AnalysisError("bins.bins lost its (start, stop) parameters")
+    out = []
+    it = Interp(ctx)
+    names = list(f.params)
+    for fmt in ("gff", "bed"):
+        for one in (True, False):
+            if only is not None and (fmt, one) not in only:
+                continue
+            for s, e in grid_pairs(tier):
+                args = {names[0]: s, names[1]: e}
+                for nm, v in (("fmt", fmt), ("one", one)):
+                    if nm not in names:
+                        raise AnalysisError("bins.bins lost its %s parameter" % nm)
+                    args[nm] = v
+                try:
+                    traces = it.run(f, args)
+                except Unsupported as ex:
+                    raise AnalysisError("bins.bins outside the analysable subset: %s" % ex)
+                if len(traces) != 1:
+                    raise AnalysisError("bins.bins forks on concrete coordinates (%d paths)" % len(traces))
+                t = traces[0]
+                if t.result[0] != "return":
+                    v = ("raise", t.result[1])
+                else:
+                    v = t.result[1]
+                    if isinstance(v, (list, set, frozenset, tuple)) and not isinstance(v, bool):
+                        v = frozenset(v) if all(isinstance(x, int) for x in v) else ("odd", repr(v)[:60])
+                    elif isinstance(v, bool) or not isinstance(v, int):
+                        v = ("odd", repr(v)[:60])
+                out.append((fmt, one, s, e, v))
+    return out
